@@ -33,6 +33,8 @@ LEGACY_NAMES = {
 MINORS = ["2.7", "3.0", "3.1", "3.6", "3.7", "3.8", "3.9", "3.10", "3.11", "3.12", "3.13", "4.0"]
 MICROS = [0, 1, 2, 10]
 PYV_LITS = MINORS + ["3", "2", "4"] + ["3.8.1", "3.8.0", "3.10.2"]  # X.Y.Z on python_version: valid PEP 508, seen in real metadata
+PYV_LITS += ["3.9.0", "3.9.1", "v3.9.1", "0!3.8", "0!3.8.1", "3.9.1.0"]  # other PEP 440 spellings of the same versions
+PYV_LITS += ["3.8rc1", "3.9.1rc1", "3.8.post1", "3.post1"]  # between two python_version values (comparison operators only)
 PYFV_LITS = [f"{m}.{z}" for m in ["2.7", "3.0", "3.7", "3.8", "3.9", "3.10", "3.12"] for z in MICROS] + ["3.7", "3.8", "3.9", "3.10", "2.7"] + ["3.9a1", "3.10.0rc1", "3.8.0b2"]
 REL_LITS = ["5.4", "5.4.0", "5.15.0", "6.0", "6.1", "10", "21.6.0", "6"]
 REL_NONVERSION_LITS = ["4.9.253-tegra", "5.15.0-91-generic"]  # real-world kernel releases: valid literals for == / != only
@@ -80,9 +82,12 @@ def atom(draw, classes):
             # not a PEP 440 version: only (string) equality is well-defined
             op = draw(st.sampled_from(["==", "!="]))
         if op in ("==*", "!=*"):
-            val = re.match(r"\d+(\.\d+)?", val).group()  # release prefix only: no wildcard after a pre-release
+            # release prefix only: no wildcard after a pre-release; up to X.Y.Z.* (the library itself prints
+            # python_version != "3.9.0.*" for python_version < "3.9.0" or python_version >= "3.9.1.0")
+            val = re.match(r"(v|0!)?\d+(\.\d+){0,2}", val).group()
             op, val = op[:2], val + ".*"
         elif op == "~=":
+            val = re.match(r"(v|0!)?\d+(\.\d+)*", val).group()  # ~= after a pre-/post-release literal is left out
             if "." not in val:
                 val += ".0"
         else:
